@@ -357,12 +357,9 @@ func recordOne(p *recPlan, rng *rand.Rand) ([]trEvent, string) {
 		if err != nil {
 			hlib.Fatal("connect: %v", err)
 		}
-		if err := bus.AuthenticateUser(c.ep, "u", "t"); err != nil {
-			hlib.Fatal("authenticate: %v", err)
-		}
-		cache := bus.NewCache(c.ep)
-		if err := cache.Lookup("probe", r.svcID); err != nil {
-			hlib.Fatal("lookup: %v", err)
+		cache, err := r.setupClient(c)
+		if err != nil {
+			return nil, "set-up call: " + err.Error()
 		}
 		caches["cl"+cn] = cache
 	}
